@@ -364,6 +364,66 @@ func nilTestOf(ifi *ssa.If) (v ssa.Value, nonNilSucc int, ok bool) {
 // edgeDominates reports whether every path to block b goes through the edge
 // from->from.Succs[succIdx].
 func edgeDominates(from *ssa.BasicBlock, succIdx int, b *ssa.BasicBlock) bool {
+	return edgeDominatesN(from, succIdx, b, 0)
+}
+
+// edgeDominatesN additionally sees through a boolean that was computed earlier and tested later
+// (`ok := a && b; ...; if ok {`): the true edge of a test of phi(false, ..., v) is only taken when the
+// phi was entered from the one predecessor that does not carry the constant false (dually for || and
+// the false edge), so whatever dominates that predecessor has been passed.
+func edgeDominatesN(from *ssa.BasicBlock, succIdx int, b *ssa.BasicBlock, depth int) bool {
+	if edgeDominates0(from, succIdx, b) {
+		return true
+	}
+	if depth > 2 {
+		return false
+	}
+	for _, q := range from.Parent().Blocks {
+		if len(q.Instrs) == 0 {
+			continue
+		}
+		ifi, ok := q.Instrs[len(q.Instrs)-1].(*ssa.If)
+		if !ok {
+			continue
+		}
+		phi, ok := ifi.Cond.(*ssa.Phi)
+		if !ok || len(phi.Edges) < 2 {
+			continue
+		}
+		for _, polarity := range []bool{true, false} {
+			k := 0
+			if !polarity {
+				k = 1
+			}
+			if !edgeDominates0(q, k, b) {
+				continue
+			}
+			live := -1
+			n := 0
+			for i, e := range phi.Edges {
+				c, isC := e.(*ssa.Const)
+				if isC && c.Value != nil && (c.Value.String() == "true") != polarity {
+					continue
+				}
+				live = i
+				n++
+			}
+			if n != 1 {
+				continue
+			}
+			pred := phi.Block().Preds[live]
+			if pred == from && len(from.Succs) == 1 {
+				continue
+			}
+			if edgeDominatesN(from, succIdx, pred, depth+1) {
+				return true
+			}
+		}
+	}
+	return false
+}
+
+func edgeDominates0(from *ssa.BasicBlock, succIdx int, b *ssa.BasicBlock) bool {
 	s := from.Succs[succIdx]
 	if !s.Dominates(b) {
 		return false
